@@ -25,7 +25,13 @@ inductive Matches : R → Str → Prop where
   | starNil {a : R} : Matches (.star a) []
   | starCons {a : R} {s1 s2 : Str} : Matches a s1 → Matches (.star a) s2 → Matches (.star a) (s1 ++ s2)
 
-/-! ## (ii) the abstract responder machine -/
+/-! ## (ii) the abstract responder machine
+
+The specification of "which responders fire".  The state is what a user of the library can say
+about it: the responders created so far with their current settings, FOR EACH DISPATCHER THE LIST OF
+ITS ENABLED RESPONDERS IN REGISTRATION ORDER (`ord`), the paths that are inhabited (in the order
+they became so — only the order BETWEEN paths of the matching dispatcher depends on it), and the
+CmdPeriod registry.  No dictionaries of wrapped callables, no object identities. -/
 
 open Sc3Verif.C06 (Bytes DVal DMsg decodePacket)
 
@@ -44,7 +50,6 @@ def AFn.isOnce : AFn → Bool
   | .once _ => true
 
 structure AResp where
-  rid : Nat
   kind : DispKind
   path : Str
   src : Option (Nat × Option Nat)
@@ -52,67 +57,101 @@ structure AResp where
   tmpl : Option (List TItem)
   func : AFn
   permanent : Bool
+  enabled : Bool
 deriving Repr
 
 structure ASt where
-  enabled : List AResp        -- the enabled responders, in REGISTRATION ORDER (latest `enable`)
-  disabled : List AResp
-  keysE : List Str            -- paths with an enabled exact responder, in the order they became inhabited
-  keysP : List Str            -- same for matching responders
+  resps : List (Nat × AResp)
+  ordE : List Nat             -- enabled exact responders, in registration order (latest `enable`)
+  ordP : List Nat             -- enabled matching responders, in registration order
+  keysE : List Str            -- inhabited paths of the exact dispatcher, in the order they became inhabited
+  keysP : List Str
   cmd : List ActKey
 deriving Repr
 
-def ASt.init : ASt := ⟨[], [], [], [], []⟩
+def ASt.init : ASt := ⟨[], [], [], [], [], []⟩
+
+def ASt.ord (a : ASt) : DispKind → List Nat
+  | .exact => a.ordE
+  | .pattern => a.ordP
 
 def ASt.keys (a : ASt) : DispKind → List Str
   | .exact => a.keysE
   | .pattern => a.keysP
+
+def ASt.setOrd (a : ASt) (k : DispKind) (l : List Nat) : ASt :=
+  match k with
+  | .exact => { a with ordE := l }
+  | .pattern => { a with ordP := l }
 
 def ASt.setKeys (a : ASt) (k : DispKind) (l : List Str) : ASt :=
   match k with
   | .exact => { a with keysE := l }
   | .pattern => { a with keysP := l }
 
+def alookup (a : ASt) (rid : Nat) : Option AResp := (a.resps.find? (·.1 == rid)).map (·.2)
+
+def aset (a : ASt) (rid : Nat) (r : AResp) : ASt :=
+  { a with resps := a.resps.map fun p => if p.1 == rid then (rid, r) else p }
+
 /-- the filters of a responder accept the delivery -/
 def AResp.accepts (env : Env) (r : AResp) (d : Delivery) : Bool :=
   srcOk r.src d.sender && portOk r.port d.port &&
     (match r.tmpl with | none => true | some t => tmplOk env t d.params)
 
-def aenableResp (a : ASt) (r : AResp) : ASt :=
-  let a1 := { a with enabled := a.enabled ++ [r], disabled := a.disabled.filter (·.rid != r.rid)
-                     cmd := if r.permanent then a.cmd else cmdAdd (.resp r.rid) a.cmd }
-  if (a.keys r.kind).contains r.path then a1 else a1.setKeys r.kind (a.keys r.kind ++ [r.path])
+/-- the enabled responders of dispatcher `k` with their ids, in registration order -/
+def aenabled (a : ASt) (k : DispKind) : List (Nat × AResp) :=
+  (a.ord k).filterMap fun rid => (alookup a rid).map fun r => (rid, r)
 
+/-- `rid` has path `path` -/
+def ahasPath (a : ASt) (rid : Nat) (path : Str) : Bool :=
+  match alookup a rid with
+  | some r => r.path == path
+  | none => false
+
+/-- the state with the per-dispatcher components of `k` replaced -/
+def ASt.withDisp (a : ASt) (k : DispKind) (ord : List Nat) (keys : List Str) : ASt :=
+  match k with
+  | .exact => { a with ordE := ord, keysE := keys }
+  | .pattern => { a with ordP := ord, keysP := keys }
+
+/-- `enable`: the responder goes to the END of its dispatcher's registration order; its path becomes
+    inhabited (last) if it was not; a non-permanent responder registers with CmdPeriod -/
 def aenable (a : ASt) (rid : Nat) : ASt :=
-  match a.disabled.find? (·.rid == rid) with
-  | some r => aenableResp a r
-  | none => a
-
-def adisable (a : ASt) (rid : Nat) : ASt :=
-  match a.enabled.find? (·.rid == rid) with
+  match alookup a rid with
   | none => a
   | some r =>
-    let en := a.enabled.filter (·.rid != rid)
-    let a1 := { a with enabled := en, disabled := a.disabled ++ [r]
-                       cmd := if r.permanent then a.cmd else cmdRemove (.resp rid) a.cmd }
-    if en.any (fun x => x.kind == r.kind && x.path == r.path) then a1
-    else a1.setKeys r.kind ((a.keys r.kind).filter (· != r.path))
+    if r.enabled then a
+    else
+      let keys := if (a.keys r.kind).contains r.path then a.keys r.kind else a.keys r.kind ++ [r.path]
+      { (aset a rid { r with enabled := true }).withDisp r.kind (a.ord r.kind ++ [rid]) keys with
+        cmd := if r.permanent then a.cmd else cmdAdd (.resp rid) a.cmd }
 
-def amapResp (a : ASt) (rid : Nat) (f : AResp → AResp) : ASt :=
-  { a with enabled := a.enabled.map (fun r => if r.rid == rid then f r else r)
-           disabled := a.disabled.map (fun r => if r.rid == rid then f r else r) }
+/-- `disable` / `free`: the responder leaves the registration order; its path stops being inhabited
+    when no other enabled responder of the dispatcher has it -/
+def adisable (a : ASt) (rid : Nat) : ASt :=
+  match alookup a rid with
+  | none => a
+  | some r =>
+    if !r.enabled then a
+    else
+      let ord := (a.ord r.kind).filter (· != rid)
+      let keys := if ord.any (fun x => ahasPath a x r.path) then a.keys r.kind
+        else (a.keys r.kind).filter (· != r.path)
+      { (aset a rid { r with enabled := false }).withDisp r.kind ord keys with
+        cmd := if r.permanent then a.cmd else cmdRemove (.resp rid) a.cmd }
 
-def afind (a : ASt) (rid : Nat) : Option (AResp × Bool) :=
-  match a.enabled.find? (·.rid == rid) with
-  | some r => some (r, true)
-  | none => (a.disabled.find? (·.rid == rid)).map fun r => (r, false)
+def asetFunc (a : ASt) (rid : Nat) (f : AFn → AFn) : ASt :=
+  match alookup a rid with
+  | none => a
+  | some r => aset a rid { r with func := f r.func }
 
 def asetPermanent (a : ASt) (rid : Nat) (v : Bool) : ASt :=
-  match afind a rid with
+  match alookup a rid with
   | none => a
-  | some (_, en) =>
-    let a1 := amapResp a rid fun r => { r with permanent := v }
-    if v && en then { a1 with cmd := cmdRemove (.resp rid) a1.cmd }
+  | some r =>
+    let a1 := aset a rid { r with permanent := v }
+    if v && r.enabled then { a1 with cmd := cmdRemove (.resp rid) a1.cmd }
     else { a1 with cmd := cmdAdd (.resp rid) a1.cmd }
 
 def anew (a : ASt) (rid : Nat) (kind : DispKind) (path : Str) (src : Option (Nat × Option Nat))
@@ -120,8 +159,8 @@ def anew (a : ASt) (rid : Nat) (kind : DispKind) (path : Str) (src : Option (Nat
   let path' := match path with
     | 47 :: _ => path
     | _ => 47 :: path
-  if (afind a rid).isSome then a
-  else aenableResp a ⟨rid, kind, path', src, port, tmpl, .user fid, false⟩
+  if (alookup a rid).isSome then a
+  else aenable { a with resps := a.resps ++ [(rid, ⟨kind, path', src, port, tmpl, .user fid, false, false⟩)] } rid
 
 def acmdPeriod (a : ASt) : ASt × List Nat :=
   go a a.cmd
@@ -138,13 +177,13 @@ where
 /-- THE SPECIFICATION of "which responders fire": the enabled responders of the dispatcher whose
     path equals the address (exact) / is matched over its whole length by the address read as a
     pattern (matching), and whose filters accept the delivery — in registration order (matching
-    responders: grouped by path, paths in the order they became inhabited). -/
-def ahits (env : Env) (a : ASt) (k : DispKind) (d : Delivery) : List AResp :=
+    responders: grouped by path). -/
+def ahits (env : Env) (a : ASt) (k : DispKind) (d : Delivery) : List (Nat × AResp) :=
   match k with
-  | .exact => a.enabled.filter fun r => r.kind == .exact && r.path == d.addr && r.accepts env d
+  | .exact => (aenabled a .exact).filter fun p => p.2.path == d.addr && p.2.accepts env d
   | .pattern =>
     (a.keysP.filter fun key => oscMatch d.addr key == some true).flatMap fun key =>
-      a.enabled.filter fun r => r.kind == .pattern && r.path == key && r.accepts env d
+      (aenabled a .pattern).filter fun p => p.2.path == key && p.2.accepts env d
 
 def adisableAll (a : ASt) : List Nat → ASt
   | [] => a
@@ -153,16 +192,21 @@ def adisableAll (a : ASt) : List Nat → ASt
 /-- each hit is called once with the delivery; a one-shot responder is freed -/
 def adispatch (env : Env) (a : ASt) (k : DispKind) (d : Delivery) : ASt × DispOut :=
   let hits := ahits env a k d
-  (adisableAll a ((hits.filter (·.func.isOnce)).map (·.rid)), ⟨k, hits.map (·.func.fid), false⟩)
+  (adisableAll a ((hits.filter (·.2.func.isOnce)).map (·.1)), ⟨k, hits.map (·.2.func.fid), false⟩)
 
 def aregistered (a : ASt) (k : DispKind) : Bool := !(a.keys k).isEmpty
 
+def adispatchList (env : Env) (d : Delivery) : ASt → List DispKind → ASt × List DispOut
+  | a, [] => (a, [])
+  | a, k :: ks =>
+    let (a1, o) := adispatch env a k d
+    let (a2, os) := adispatchList env d a1 ks
+    (a2, o :: os)
+
+/-- every registered dispatcher (snapshot), in the iteration order of the set (`patFirst`) -/
 def adispatchMsg (env : Env) (patFirst : Bool) (a : ASt) (d : Delivery) : ASt × List DispOut :=
   let order := if patFirst then [DispKind.pattern, .exact] else [.exact, .pattern]
-  let regs := order.filter (aregistered a)          -- snapshot of the registered dispatchers
-  regs.foldl (fun (acc : ASt × List DispOut) k =>
-      let (a', o) := adispatch env acc.1 k d
-      (a', acc.2 ++ [o])) (a, [])
+  adispatchList env d a (order.filter (aregistered a))
 
 def adispatchAll (env : Env) (cfg : RecvCfg) (sender : Sender) :
     ASt → List (Option Nat × DMsg) → ASt × List (Delivery × List DispOut)
@@ -178,8 +222,8 @@ def astep (env : Env) (a : ASt) : Op → ASt × Out
   | .enable rid => (aenable a rid, .unit)
   | .disable rid => (adisable a rid, .unit)
   | .free rid => (adisable a rid, .unit)
-  | .oneShot rid => (amapResp a rid fun r => { r with func := .once r.func }, .unit)
-  | .setFunc rid fid => (amapResp a rid fun r => { r with func := .user fid }, .unit)
+  | .oneShot rid => (asetFunc a rid .once, .unit)
+  | .setFunc rid fid => (asetFunc a rid fun _ => .user fid, .unit)
   | .permanent rid v => (asetPermanent a rid v, .unit)
   | .cmdPeriod => let (a', l) := acmdPeriod a; (a', .actions l)
   | .cmdAdd aid => ({ a with cmd := cmdAdd (.user aid) a.cmd }, .unit)
